@@ -81,6 +81,10 @@ def _tagcheck(shape, dvp):
         k = dvp[vi]
         vi += 1
         out.append("a%d%stag%d == %d" % (i, "." if ch == "V" else "->", k, k))
+        if ch in "PQ":
+            # the handle a definition receives is derived from the caller's (Yomm2!DeriveVptr: same pointee, same class): it
+            # carries the v-table of the object's dynamic class, i.e. the one a fresh look-up through the object finds
+            out.append("a%d._vptr() == VP%d(*a%d)._vptr()" % (i, k, i))
     return " && ".join(out) or "true"
 
 
